@@ -209,6 +209,8 @@ func fillValue(rng *rand.Rand, v reflect.Value, depth int) {
 		v.SetInt(pick(rng, int64Pool))
 	case reflect.Uint16:
 		v.SetUint(uint64(pick(rng, []int{0, 0, 1, 80, 65535, 32768})))
+	case reflect.Uint8: // an element of a byte slice (no such field in the released protocol: the schema check decides)
+		v.SetUint(uint64(rng.Intn(256)))
 	case reflect.Map: // map[string]string
 		switch rng.Intn(4) {
 		case 0: // nil
@@ -528,7 +530,15 @@ func codecExec(tok []string) string {
 		}
 		return fmt.Sprintf("%s %d %d", o, r.off, r.bodyReq)
 	case "first":
-		return codecFirst([]byte(unhx(tok[1])))
+		return codecFirst("-", []byte(unhx(tok[1])))
+	case "pfirst":
+		return codecFirst(codecProfileTok(tok[1]), []byte(unhx(tok[2])))
+	case "psess":
+		return codecSess(codecProfileTok(tok[1]), []byte(unhx(tok[2])), []byte(unhx(tok[3])))
+	case "prd", "pinto":
+		return codecProc(tok)
+	case "pcli":
+		return codecCli(codecProfileTok(tok[1]), tok[2], []byte(unhx(tok[3])))
 	case "later":
 		return codecLater([]byte(unhx(tok[1])))
 	case "disp":
@@ -540,7 +550,7 @@ func codecExec(tok []string) string {
 	case "batch":
 		return codecBatch(tok)
 	case "sess":
-		return codecSess([]byte(unhx(tok[1])), []byte(unhx(tok[2])))
+		return codecSess("-", []byte(unhx(tok[1])), []byte(unhx(tok[2])))
 	case "gold":
 		data := []byte(unhx(tok[1]))
 		m, err := msg.ReadMsg(bytes.NewReader(data))
@@ -573,7 +583,8 @@ type codecLive struct {
 	stop io.Closer     // closing it ends the child process
 }
 
-var live *codecLive
+// one live frps per configuration profile ("-" = all defaults), started on demand
+var lives = map[string]*codecLive{}
 
 func codecFreePort() int {
 	l, err := net.Listen("tcp", "127.0.0.1:0")
@@ -619,6 +630,9 @@ func init() {
 func codecServe(port string) {
 	log.InitLogger("console", "error", 0, true)
 	cfg := &v1.ServerConfig{}
+	if p, ok := codecParseProfile(os.Getenv("VERIF_CODEC_PROFILE")); ok {
+		p.applyServer(cfg)
+	}
 	cfg.BindAddr = "127.0.0.1"
 	cfg.BindPort = atoi(port)
 	cfg.Auth.Token = codecToken
@@ -639,14 +653,49 @@ func codecServe(port string) {
 	svr.Run(context.Background())
 }
 
-var liveBroken string // set when a listening frps could not be logged into: not retried
+var liveBroken = map[string]string{} // set when a listening frps could not be logged into: not retried
 
-func liveStart() *codecLive {
+// the live frps of a profile (nil + reason when it cannot be used)
+func liveFor(profile string) (*codecLive, string) {
+	if lives[profile] == nil && liveBroken[profile] == "" {
+		if len(lives) >= 3 { // few processes at a time: the default one stays, the other profiles come one after the other
+			for k, l := range lives {
+				if k != "-" {
+					_ = l.conn.Close()
+					_ = l.stop.Close()
+					delete(lives, k)
+				}
+			}
+		}
+		lives[profile] = liveStart(profile)
+	}
+	if lives[profile] == nil {
+		delete(lives, profile)
+		return nil, liveBroken[profile]
+	}
+	return lives[profile], ""
+}
+
+// is the established session of that frps still served?  If not the server is given up (a fresh one next time).
+func liveCheck(profile string) string {
+	l := lives[profile]
+	if l != nil && l.alive() {
+		return "alive"
+	}
+	if l != nil {
+		_ = l.conn.Close()
+		_ = l.stop.Close()
+	}
+	delete(lives, profile)
+	return "dead"
+}
+
+func liveStart(profile string) *codecLive {
 	var lastErr error
 	for try := 0; try < 5; try++ { // a port may be taken between probing and binding: not frp's fault
 		port := codecFreePort()
 		cmd := exec.Command(os.Args[0])
-		cmd.Env = append(os.Environ(), fmt.Sprintf("VERIF_CODEC_SERVE=%d", port))
+		cmd.Env = append(os.Environ(), fmt.Sprintf("VERIF_CODEC_SERVE=%d", port), "VERIF_CODEC_PROFILE="+profile)
 		cmd.Stderr = io.Discard
 		stdin, err := cmd.StdinPipe()
 		if err != nil {
@@ -674,7 +723,7 @@ func liveStart() *codecLive {
 		c, rw, err := liveLogin(addr)
 		if err != nil { // the server is up but a correct login does not work: the implementation's doing
 			_ = stdin.Close()
-			liveBroken = "nologin"
+			liveBroken[profile] = "nologin"
 			return nil
 		}
 		return &codecLive{addr: addr, conn: c, rw: rw, stop: stdin}
@@ -696,12 +745,10 @@ func (l *codecLive) alive() bool {
 	return ok && p.Error == ""
 }
 
-func codecFirst(data []byte) string {
-	if live == nil && liveBroken == "" {
-		live = liveStart()
-	}
+func codecFirst(profile string, data []byte) string {
+	live, why := liveFor(profile)
 	if live == nil {
-		return liveBroken
+		return why
 	}
 	c, err := net.DialTimeout("tcp", live.addr, 2*time.Second)
 	if err != nil {
@@ -719,26 +766,16 @@ func codecFirst(data []byte) string {
 	} else if len(got) > 0 {
 		res = "data+closed"
 	}
-	al := "dead"
-	if live.alive() {
-		al = "alive"
-	} else { // the established session (or the whole server) is gone: start afresh for the next op
-		_ = live.conn.Close()
-		_ = live.stop.Close()
-		live = nil
-	}
-	return res + " " + al
+	return res + " " + liveCheck(profile)
 }
 
 // codecLater: a second client logs in correctly and then sends `data` on its (encrypted) control
 // stream, keeping the connection open.  Result: did the server end that session, and is the other
 // established session still served?
 func codecLater(data []byte) string {
-	if live == nil && liveBroken == "" {
-		live = liveStart()
-	}
+	live, why := liveFor("-")
 	if live == nil {
-		return liveBroken
+		return why
 	}
 	c, rw, err := liveLogin(live.addr)
 	if err != nil {
@@ -755,15 +792,7 @@ func codecLater(data []byte) string {
 	if errors.As(rerr, &ne) && ne.Timeout() {
 		res = "open"
 	}
-	al := "dead"
-	if live.alive() {
-		al = "alive"
-	} else {
-		_ = live.conn.Close()
-		_ = live.stop.Close()
-		live = nil
-	}
-	return res + " " + al
+	return res + " " + liveCheck("-")
 }
 
 // ---------------------------------------------------------------- generator
@@ -868,7 +897,15 @@ func codecGen(rng *rand.Rand, n int, emit func(string)) {
 		}
 	}
 	nFirst, nLater, nSess := 0, 0, 0
+	cfgGen := &cdCfgGen{}
 	for i := 0; i < n; i++ {
+		// the bound as a property of the process in every configuration (few: real sockets, child processes)
+		if i%32 == 21 {
+			if op := cfgGen.next(rng); op != "" {
+				emit(op)
+				continue
+			}
+		}
 		// session level: the real Dispatcher over a pipe (every 4th op), a live control connection (few)
 		if i%16 == 1 {
 			emit(cdGenNH(rng))
